@@ -65,6 +65,33 @@ def generate(src, die, coq_str):
     l2 = [_char(c, die) for c in re.findall(r"'((?:\\.|[^'\\]))'", m2.group(1))]
     out.append("Definition url_ignored_next_utf8 : list N := [%s]." % "; ".join(map(str, l1)))
     out.append("Definition url_ignored_parse_host : list N := [%s]." % "; ".join(map(str, l2)))
+    # characters filtered out of the collected host (must be the same list again)
+    m3 = re.search(r"\.filter\(\|c\| !matches!\(c, ((?:'(?:\\.|[^'\\])'\s*\|?\s*)+)\)\)", p)
+    if not m3:
+        die("c12_url_tables: host filter of ignored characters not recognised")
+    l3 = [_char(c, die) for c in re.findall(r"'((?:\\.|[^'\\]))'", m3.group(1))]
+    out.append("Definition url_ignored_host_filter : list N := [%s]." % "; ".join(map(str, l3)))
+    if "take(non_ignored_chars + ignored_chars)" not in p:
+        die("c12_url_tables: parse_host no longer takes non_ignored_chars + ignored_chars")
+    # bytes of the idna output that make parse_host return IdnaError
+    m4 = re.search(r"let encoded = idna::domain_to_ascii\(host_str\)\?;.*?if encoded\.bytes\(\)\.any\(\|b\| \{\s*matches!\(b, (.*?)\)\s*\}\) \{\s*return Err\(ParseError::IdnaError\);", p, re.S)
+    if not m4:
+        die("c12_url_tables: rejection of idna output bytes not recognised")
+    rej = []
+    for item in [x.strip() for x in re.split(r"\s\|\s", m4.group(1).strip())]:
+        mm = re.fullmatch(r"(\d+|0x[0-9a-fA-F]+)\.\.=b'((?:\\.|[^'\\]))'", item)
+        if mm:
+            rej.extend(range(int(mm.group(1), 0), _byte(mm.group(2), die) + 1))
+            continue
+        mm = re.fullmatch(r"b'((?:\\.|[^'\\]))'", item)
+        if mm:
+            rej.append(_byte(mm.group(1), die))
+            continue
+        if re.fullmatch(r"\d+|0x[0-9a-fA-F]+", item):
+            rej.append(int(item, 0))
+            continue
+        die("c12_url_tables: rejected-byte pattern item %r not understood" % item)
+    out.append("Definition url_idna_rejected_bytes : list N := [%s]." % "; ".join(map(str, rej)))
     m = re.search(r"fn c0_control_or_space\(ch: char\) -> bool \{\s*ch <= '(.)'", p)
     if not m:
         die("c12_url_tables: c0_control_or_space not recognised")
